@@ -49,6 +49,44 @@ def check_amount(stated, unit, true_base, what, fails, i):
         fails.append((i, f"instruction states {float(stated)} {unit} for {what}, the actual amount is {float(true_u)!r} {unit}"))
 
 
+def table_oracle(prog, obs):
+    """the table a container shows of itself (every container is displayed as soon as it exists, so a container derived from a displayed
+    one is displayed too): each cell states the amount the container holds, to the displayed precision"""
+    fails = []
+    byid = {s['id']: s for s in prog['subs']}
+    prec = {'uL': 0, 'umol': 1, 'mg': 1}
+    for i, (op, o) in enumerate(zip(prog['ops'], obs)):
+        if not o['ok']:
+            continue
+        for v, d in o['out']:
+            tb = d.get('table')
+            if not tb:
+                continue
+            if 'error' in tb:
+                fails.append((i, f"displaying the container returned by {op['op']} raised {tb['error']}"))
+                continue
+            for key, cells in tb.items():
+                if key == 'Total' or key not in byid or key not in d['cont']:
+                    continue
+                for cell, base in zip(cells, ('L', 'g', 'mol', 'U')):
+                    if cell == '-' or ' ' not in cell:
+                        continue
+                    val, unit = cell.split(' ')
+                    pfx = unit[:-len(base)]
+                    if not unit.endswith(base) or pfx not in dsl.PFX:
+                        continue
+                    true = histcheck.amount_in(byid[key], d['cont'][key], base)
+                    shown = F(val) * dsl.PFX[pfx][1]
+                    if abs(shown - true) > F(51, 100) * F(10) ** (-prec.get(unit, 3)) * dsl.PFX[pfx][1] + abs(true) * F(1, 10**9):
+                        fails.append((i, f"the table of the container returned by {op['op']} (variable {v}) shows {cell} for substance {key}, "
+                                         f"the container holds {float(true)!r} {base}"))
+            if any(k != 'Total' and k not in d['cont'] for k in tb):
+                fails.append((i, f"the table of the container returned by {op['op']} lists a substance the container does not hold"))
+            if any(k not in tb for k in d['cont'] if k in byid) and len(set(s['name'] for s in prog['subs'])) == len(prog['subs']):
+                fails.append((i, f"the table of the container returned by {op['op']} (variable {v}) omits a substance the container holds"))
+    return fails
+
+
 def instr_oracle(prog, obs, impl):
     fails = []
     subs = prog['subs']
@@ -342,20 +380,29 @@ def run(chk, gate, status):
     hist = []
     for i in range(n):
         rng = random.Random(chk.seed * 100003 + 190000 + i)
-        g = gen.history(rng, rng.randint(5, 10), with_plates=False, trace=(i % 3 == 2),
-                        weights={'newc': 2, 'cc': 5, 'remove': 0.5, 'fill': 2, 'bad': 0.3})
-        from props import C11, C12
-        for _ in range(2):
-            C11.add_dilute(g, rng)
-        f = instr_oracle(g.prog(), g.obs, g.impl)
+        dsl.TABLES = True
+        try:
+            g = gen.history(rng, rng.randint(5, 10), with_plates=False, trace=(i % 3 == 2),
+                            weights={'newc': 2, 'cc': 5, 'remove': 0.5, 'fill': 2, 'bad': 0.3})
+            from props import C11, C12
+            for _ in range(2):
+                C11.add_dilute(g, rng)
+        finally:
+            dsl.TABLES = False
+        f = instr_oracle(g.prog(), g.obs, g.impl) + table_oracle(g.prog(), g.obs)
         hist.append((g, bool(f)))
         nlines += sum(1 for o in g.obs if o['ok'])
         if f:
             nfail += 1
             if nfail <= 3:
-                small = histcheck.shrink(g.prog(), instr_oracle)
-                sobs, sim = histcheck.rerun(small)
-                sf = instr_oracle(small, sobs, sim) or f
+                both = lambda p, o, im: instr_oracle(p, o, im) + table_oracle(p, o)
+                dsl.TABLES = True
+                try:
+                    small = histcheck.shrink(g.prog(), both)
+                    sobs, sim = histcheck.rerun(small)
+                    sf = both(small, sobs, sim) or f
+                finally:
+                    dsl.TABLES = False
                 chk.violation(sf[0][1], {'program': small, 'failures': [list(x) for x in sf[:5]]})
     # the same histories under other display / storage units and default densities (separate processes): the texts are read from the dumps
     histcheck.variants(chk, [g for g, _ in hist], instr_oracle, 'C19v', limit=10 if not full else 60)
@@ -425,7 +472,8 @@ def replay(path):
     r = json.load(open(path))
     print(json.dumps({k: v for k, v in r.items() if k not in ('program', 'recipe')}, indent=1)[:1500])
     if 'program' in r:
-        return histcheck.replay(path, instr_oracle)
+        dsl.TABLES = True      # every container is displayed as soon as it exists, as in the check
+        return histcheck.replay(path, lambda p, o, im: instr_oracle(p, o, im) + table_oracle(p, o))
     if 'recipe' in r:
         prog = r['recipe']
         rg = recipes.Replayed(prog)
